@@ -116,6 +116,10 @@ Section WithCfg.
 Variable c : cfg.
 Variable s0 : N.
 Hypothesis Hst : stale_ok c.
+Hypothesis Hlose : c_lose c = [].
+
+Lemma delivers_all n h q : bmc_delivers c n h q = bmc_frames c n h q.
+Proof. unfold bmc_delivers, is_lost. rewrite Hlose. reflexivity. Qed.
 
 Record Inv (g : gstate) : Prop := mkInv {
   inv_lock : forall t th, nth_error (g_thr g) t = Some th ->
@@ -280,7 +284,7 @@ Proof.
       * eapply nth_error_upd_eq; eauto.
       * unfold holder_ok; cbn. split; auto.
         exists (pack_sseq c (g_sseq g)), q, (g_wire g). repeat split; auto.
-        left. repeat split; auto. rewrite Hib, In. reflexivity.
+        left. repeat split; auto. rewrite Hib, In, delivers_all. reflexivity.
     + cur_goal Hth Ic Hq.
     + ret_goal Hth Ir.
   - (* receive *)
@@ -580,8 +584,10 @@ Qed.
 (* ---------- for every schedule, any number of threads and requests ---------- *)
 Section AllSchedules.
 Variables (c : cfg) (nsn0 s0 : N) (progs : list (list treq)) (sched : list tid).
-Hypothesis Hst : stale_ok c.
+Hypothesis Hok : bmc_ok c.
 Let g := exec c sched (init nsn0 s0 progs).
+Let Hst : stale_ok c := proj1 Hok.
+Let Hlose : c_lose c = [] := proj2 Hok.
 
 Lemma mutex_all t1 t2 th1 th2 :
   nth_error (g_thr g) t1 = Some th1 -> nth_error (g_thr g) t2 = Some th2 ->
@@ -595,14 +601,6 @@ Proof. apply (inv_lock c s0), reach_inv; auto. Qed.
 Lemma not_interleaved_all : not_interleaved c g.
 Proof. apply (not_interleaved_of_inv c s0), reach_inv; auto. Qed.
 
-Lemma sseq_chain_all : c_active c = true -> chain next_sseq s0 (tx_sseqs g).
-Proof. apply sseq_chain_of_inv, reach_inv; auto. Qed.
-
-Lemma sseq_adjacent_all : c_active c = true ->
-  forall l1 a b l2, tx_sseqs g = l1 ++ a :: b :: l2 ->
-  (a < 0xffffffff /\ b = a + 1) \/ (a = 0xffffffff /\ b = 1).
-Proof. apply (sseq_adjacent_of_inv c s0), reach_inv; auto. Qed.
-
 Lemma own_reply_all t th j o :
   nth_error (g_thr g) t = Some th -> nth_error (t_done th) j = Some o ->
   exists q r, o = Ok r /\ nth_error (t_reqs th) j = Some q /\ answered c g t j q r.
@@ -614,3 +612,68 @@ Proof. apply (no_deadlock c s0), reach_inv; auto. Qed.
 Lemma q_empty_all : g_q g = [].
 Proof. apply (inv_q c s0), reach_inv; auto. Qed.
 End AllSchedules.
+
+(* ---------- session sequence numbers: no assumption on the BMC at all ---------- *)
+(* (lost replies, unrelated frames, any max_retries: every datagram, retransmissions
+   included, is packed afresh under the lock) *)
+Definition SeqInv (c : cfg) (s0 : N) (g : gstate) : Prop :=
+  g_sseq g = sseq_after s0 (g_wire g) /\ seq_ok c s0 (g_wire g).
+
+Lemma after_rx_same c g t th q h retry rr rx :
+  g_wire (after_rx c g t th q h retry rr rx) = g_wire g /\
+  g_sseq (after_rx c g t th q h retry rr rx) = g_sseq g.
+Proof.
+  unfold after_rx. destruct (rx_match h q rx); [|destruct (Nat.leb (S rr) (c_max_retries c))]; cbn; auto.
+Qed.
+
+Lemma step_seqinv c s0 g t l g' : SeqInv c s0 g -> step_l c g t = Some (l, g') -> SeqInv c s0 g'.
+Proof.
+  intros [A B] H. unfold step_l in H.
+  destruct (nth_error (g_thr g) t) as [th|]; [|discriminate].
+  destruct (nth_error (t_reqs th) (t_k th)) as [q|]; [|discriminate].
+  destruct (t_pc th).
+  - inversion H; subst; split; cbn; auto.
+  - inversion H; subst; split; cbn; auto.
+  - inversion H; subst; split; cbn; auto.
+  - destruct (g_lock g); [discriminate|]. inversion H; subst; split; cbn; auto.
+  - inversion H; subst; split; cbn; auto. split; auto. rewrite A. reflexivity.
+  - destruct (g_q g) as [|rx q'].
+    + destruct (g_inbox g) as [|rx ib].
+      * inversion H; subst; split; cbn; auto.
+      * inversion H; subst. unfold SeqInv.
+        destruct (after_rx_same c (mkG (g_nsn g) (g_lock g) (g_sseq g) [] ib (g_nrx g)
+                                      (Rcvd t rx :: g_wire g) (g_thr g)) t th q h retry rr rx) as [-> ->].
+        cbn. auto.
+    + inversion H; subst. unfold SeqInv.
+      destruct (after_rx_same c (mkG (g_nsn g) (g_lock g) (g_sseq g) q' (g_inbox g) (g_nrx g)
+                                    (g_wire g) (g_thr g)) t th q h retry rr rx) as [-> ->].
+      cbn. auto.
+  - inversion H; subst; split; cbn; auto.
+  - inversion H; subst; split; cbn; auto.
+Qed.
+
+Lemma exec_seqinv c s0 sched : forall g, SeqInv c s0 g -> SeqInv c s0 (exec c sched g).
+Proof.
+  unfold exec. induction sched as [|t r IH]; intros g I; cbn; auto. apply IH.
+  unfold exec1, step. destruct (step_l c g t) as [[l g']|] eqn:E; auto. eapply step_seqinv; eauto.
+Qed.
+
+Lemma sseq_chain_all c nsn0 s0 progs sched : c_active c = true ->
+  chain next_sseq s0 (tx_sseqs (exec c sched (init nsn0 s0 progs))).
+Proof.
+  intros A. assert (I : SeqInv c s0 (exec c sched (init nsn0 s0 progs))).
+  { apply exec_seqinv. split; cbn; auto. }
+  destruct I as [_ I]. apply seq_ok_chain in I. unfold tx_sseqs.
+  replace (pack_sseq c) with next_sseq in I; auto. unfold pack_sseq. rewrite A. reflexivity.
+Qed.
+
+Lemma sseq_adjacent_all c nsn0 s0 progs sched : c_active c = true ->
+  forall l1 a b l2, tx_sseqs (exec c sched (init nsn0 s0 progs)) = l1 ++ a :: b :: l2 ->
+  (a < 0xffffffff /\ b = a + 1) \/ (a = 0xffffffff /\ b = 1).
+Proof.
+  intros A l1 a b l2 E. pose proof (sseq_chain_all c nsn0 s0 progs sched A) as H.
+  pose proof (chain_range _ _ H) as R. rewrite E in H, R.
+  apply chain_adjacent in H. subst b.
+  apply Forall_app in R. destruct R as [_ R]. inversion R; subst.
+  apply next_sseq_spec. lia.
+Qed.
